@@ -481,6 +481,9 @@ fn run(sc: &TScenario, mask: Mask, rx: (f64, f64), out: &mut Outcome, h: &mut Fn
     if out.violation.is_none() && mask.c12 {
         isolation_replay(sc, rx, &tr, &filed, out);
     }
+    if ever_seen.len() >= 100 {
+        out.probe("more_than_100_distinct_addresses");
+    }
     let mut s = Fnv::new();
     s.u64(tr.len() as u64);
     s.u64(ever_removed.len() as u64);
